@@ -201,6 +201,45 @@ def run(ctx):
         ctx.check(not bad and not consts, "COLUMN", "C17:COLUMN:secondary-window-gutter", "every formatted line of the secondary window takes the gutter width (%d lines)" % len(tuples),
                   "the secondary window writes a line with a fixed gutter (%s): from line 10 on the caret sits left of the reported column" % ([ops for b, ops in bad] or "constant line"), config, ctx.where(gw, (bad[0][0] if bad else consts[0]) if (bad or consts) else None))
         ctx.floor("COLUMN.secondary-window-lines", len(tuples), 6, config)
+        # ---- STEP: the byte sanitiser's scan loop advances its cursor by exactly what it examined — 1, or 2 on the path that rewrote a
+        # two-byte C1 sequence.  A pass that adds 3 after a rewrite skips the byte behind it: the second of two adjacent C1
+        # controls survives (`\u{9b}\u{9b}31m` reaches the terminal as a raw CSI).
+        sz = fx.fn("de_snipped::sanitize_terminal_snippet_preserve_len")
+        ctx.saw(sz)
+        idx_local = [l for l, d in enumerate(sz.locals) if d.get("name") == "i"]
+        steps = {}
+        for b, i, s_ in sz.stmts():
+            if s_["k"] == "assign" and not s_["p"]["pr"] and s_["p"]["l"] in idx_local:
+                v = sz.sym_rvalue(s_["rv"])
+                if v[0] == "field" and v[1][0] == "bin" and v[1][1] == "AddWithOverflow" and v[1][3][0] == "const":
+                    steps[b] = steps.get(b, 0) + v[1][3][1]
+                elif v[0] == "bin" and v[1] == "Add" and v[3][0] == "const":
+                    steps[b] = steps.get(b, 0) + v[3][1]
+        two_byte = set()
+        for b, t in sz.calls():
+            if fx.callee(t).endswith("IndexMut>::index_mut") and len(t["args"]) > 1 and render(sz.sym_operand(t["args"][1])) in ("Add(i, 1)", "Add(1, i)"):
+                two_byte.add(b)
+        comps = [c for c in sz.sccs() if len(c) > 1 and set(steps) & c]
+        bad_paths, npaths = [], 0
+        for comp in comps:
+            heads = [x for x in comp if any(p not in comp for p in sz.pred[x])]
+            for h in heads:
+                stack = [(h, (h,), 0, False)]
+                while stack and npaths < 2000:
+                    b, path, tot, two = stack.pop()
+                    tot2 = tot + steps.get(b, 0)
+                    two2 = two or b in two_byte
+                    for nx in sz.succ[b]:
+                        if nx not in comp:
+                            continue
+                        if nx == h:
+                            npaths += 1
+                            if tot2 != (2 if two2 else 1):
+                                bad_paths.append((tot2, two2))
+                        elif nx not in path:
+                            stack.append((nx, path + (nx,), tot2, two2))
+        ctx.check(bool(comps) and npaths > 0 and not bad_paths, "UNITS", "C17:UNITS:sanitiser-cursor-step", "every iteration of the C1 scan advances the cursor by what it examined (%d path(s))" % npaths,
+                  "the byte sanitiser's scan loop has an iteration that advances the cursor by %s: a byte is skipped (or re-examined) after a rewritten sequence, so the second of two adjacent C1 controls is left in the text" % sorted({("%d after a two-byte rewrite" % a) if t2 else ("%d" % a) for a, t2 in bad_paths}), config, ctx.where(sz))
         # ---- miette adapter
         if any(f.file.endswith("miette.rs") for f in fx.fns.values()):
             rule_miette(ctx, fx, config)
